@@ -249,6 +249,10 @@ func isIterMethod(cc *ssa.CallCommon) bool {
 
 func isNativeStatic(name string) bool {
 	switch name {
+	case "(*github.com/cosmos/cosmos-sdk/codec.LegacyAmino).UnmarshalJSON", "github.com/cosmos/cosmos-sdk/codec.MarshalJSONIndent":
+		return true
+	}
+	switch name {
 	case "github.com/cosmos/cosmos-sdk/types.KVStorePrefixIterator",
 		"(encoding/binary.bigEndian).PutUint64", "(encoding/binary.bigEndian).PutUint16",
 		"(encoding/binary.bigEndian).Uint64", "(encoding/binary.bigEndian).Uint16":
@@ -793,6 +797,41 @@ func (bs *blockState) native(name string, args []Val, resType types.Type, pos to
 		b := bs.tm(args[1], "Bytes", pos)
 		bs.safe("uint-len", Term{fmt.Sprintf("(<= %d (blen %s))", n, b.S), "Bool"}, pos)
 		return ex.define("u", Term{fmt.Sprintf("(%s (bslice %s 0 %d))", dec, b.S, n), "Int"})
+	}
+	switch name {
+	case "(*github.com/cosmos/cosmos-sdk/codec.LegacyAmino).UnmarshalJSON":
+		// JSON decoding of query parameters: a deterministic function of the bytes (legacy amino JSON codec assumed)
+		ex.trusted["legacy amino JSON: UnmarshalJSON is a deterministic function jsonDec_T of the bytes; MarshalJSONIndent is a deterministic function jsonEnc_T of the value"] = true
+		bz := bs.tm(args[1], "Bytes", pos)
+		if bx, ok := args[2].(*Boxed); ok {
+			if ptr, ok := bx.val.(*Ptr); ok {
+				if pt, ok := bx.typ.Underlying().(*types.Pointer); ok {
+					s := ex.P.sorts.sortOf(pt.Elem())
+					fn := "jsonDec_" + sanitize(s)
+					if _, ok := ex.P.sig.Funs[fn]; !ok {
+						ex.P.sig.Funs[fn] = &FunSig{Args: []string{"Bytes"}, Ret: s}
+						ex.P.sorts.decls = append(ex.P.sorts.decls, fmt.Sprintf("(declare-fun %s (Bytes) %s)", fn, s))
+					}
+					v := Term{"(" + fn + " " + bz.S + ")", s}
+					if r := ex.P.rangeFact(v, pt.Elem()); r.S != "true" {
+						ex.emit("(assert %s)", r.S)
+					}
+					bs.store(ptr, v, pos)
+					return ex.fresh("jsonerr", "Err")
+				}
+			}
+		}
+		ex.unsup(pos, "UnmarshalJSON into an unsupported target")
+		return ex.fresh("jsonerr", "Err")
+	case "github.com/cosmos/cosmos-sdk/codec.MarshalJSONIndent":
+		ex.trusted["legacy amino JSON: UnmarshalJSON is a deterministic function jsonDec_T of the bytes; MarshalJSONIndent is a deterministic function jsonEnc_T of the value"] = true
+		v := bs.tm(args[1], "", pos)
+		fn := "jsonEnc_" + sanitize(v.Sort)
+		if _, ok := ex.P.sig.Funs[fn]; !ok {
+			ex.P.sig.Funs[fn] = &FunSig{Args: []string{v.Sort}, Ret: "Bytes"}
+			ex.P.sorts.decls = append(ex.P.sorts.decls, fmt.Sprintf("(declare-fun %s (%s) Bytes)", fn, v.Sort))
+		}
+		return &Tuple{[]Val{ex.define("json", Term{"(" + fn + " " + v.S + ")", "Bytes"}), ex.fresh("jsonerr", "Err")}}
 	}
 	ex.unsup(pos, "native %s not implemented", name)
 	return bs.freshResults(resType, pos)
